@@ -139,6 +139,10 @@ def lock_defer_to_explicit(rw):
     rw.in_func("minify.go", r"\(m \*M\) Add\(", "\tm.mutex.Lock()\n", "\t// registration takes the write lock\n\tm.mutex.Lock()\n\n")
 
 
+def appendbase_func_renamed(rw):
+    rw.rename("css", "minifyTokens", "minifyTokenList")
+
+
 # ---- controls ----
 
 def ctl_elem_write(rw):
@@ -259,6 +263,7 @@ REWRITES = [
     R("c13-svg-option-copy-value", T, "invariant", "equivalent-form", "svg Minify: cp := *o; o = &cp instead of tmp := &Minifier{}; *tmp = *o; o = tmp", svg_option_copy_value, tests=["./svg/..."]),
     R("c13-move-byte-vars", T, "invariant", "move-decl", "json: the package-level byte slices move to a new file", move_byte_vars),
     R("c13-lock-comment", T, "invariant", "comments", "M.Add: comment and blank line around the lock calls", lock_defer_to_explicit),
+    R("c13-appendbase-func-renamed", T + ["c10_api"], "invariant", "rename-func", "css: the method that appends to urlBytes is renamed", appendbase_func_renamed, tests=["./css/..."]),
     R("c13-ctl-elem-write", T, "changes", "control", "js: element write to a package-level slice", ctl_elem_write),
     R("c13-ctl-write-via-helper", T, "changes", "control", "css: helper that overwrites its argument is called with a package-level slice", ctl_write_via_helper),
     R("c13-ctl-write-via-helper-chain", T, "changes", "control", "css: helper re-slices and hands on to a helper that copies into it", ctl_write_via_helper_chain),
